@@ -112,6 +112,21 @@ pub fn dispatch(st: &mut ClaimState, op: &str, f: &[String]) -> Option<String> {
                 Err(e) => err_str(&e),
             }
         }
+        // q.store <handle> <reg> <name> v* — replace_versions by whoever (normally the owner, while it holds the claim)
+        "q.store" => {
+            let cache = st.handle(&f[0]);
+            match cache.replace_versions(rt(&f[1]), &f[2], f[3..].to_vec()) {
+                Ok(()) => "ok".into(),
+                Err(e) => err_str(&e),
+            }
+        }
+        "q.mark" => {
+            let cache = st.handle(&f[0]);
+            match cache.mark_not_found(rt(&f[1]), &f[2]) {
+                Ok(()) => "ok".into(),
+                Err(e) => err_str(&e),
+            }
+        }
         "q.release" => {
             let cache = st.handle(&f[0]);
             match cache.finish_fetch(rt(&f[1]), &f[2]) {
